@@ -10,6 +10,7 @@
  *   mxisnum <hex name>       ILLmps_possibly_blank_name (name, state, table containing exactly that name): extra 1 when " " is returned
  *   mxeol                    ILLmps_check_end_of_line  (extra: 1 when a warning was logged)
  *   mxseteol                 ILLmps_set_end_of_line
+ *   mxsec k                  the active section: 1 = COLUMNS (records without field 1), 0 = BOUNDS (records with a type field)
  *   mxfree
  * every command answers:  mx rc pnull line_num p field_num key field [extra]
  */
@@ -105,6 +106,7 @@ int qsx_mpslex_commands (const char *c)
 	if (strncmp (c, "mx", 2)) return 0;
 	if (!MX) { printf ("bad-op no-state\n"); return 1; }
 	if (!strcmp (c, "mxfree")) { mx_free (); printf ("ok\n"); return 1; }
+	if (!strcmp (c, "mxsec")) { MX->active = tok_int () ? ILL_MPS_COLS : ILL_MPS_BOUNDS; mx_out (0); printf ("\n"); return 1; }
 	if (!MX->p && strcmp (c, "mxnl")) { if (!strcmp (c, "mxisnum")) tok (); printf ("mx NULLP\n"); return 1; }	/* callers never do that */
 	if (!strcmp (c, "mxnl")) { rc = mpq_ILLmps_next_line (MX); mx_out (rc); }
 	else if (!strcmp (c, "mxnf")) { rc = mpq_ILLmps_next_field (MX); mx_out (rc); }
